@@ -1,5 +1,5 @@
 """C09 — literals are read as the value IEC 61131-3 assigns them, or rejected."""
-import datetime, struct
+import datetime, random, struct
 from fractions import Fraction
 from .. import core, rustdebug
 from .c01 import canon_impl, canon_model, first_diff
@@ -11,7 +11,9 @@ RULE = ('the structured literal space, enumerated (not sampled): integers in bas
         'direct addresses: every prefix x size x 1-3 components x 1-3 digits; each as `VAR x : T := <literal>; END_VAR`; '
         'oracle: the ConstantKind / AddressAssignment node carries the exact mathematical value (Python fractions / '
         'datetime), unrepresentable literals are rejected with P0002; correspondence: the Lean parser model; '
-        'non-trivial = every case; distinct = distinct literal')
+        'non-trivial = every case; distinct = distinct literal; thorough tier adds 200 000 literals drawn at random from the '
+        'integer (all bases, widths to 140 bits, underscores, signs), real (to 18+19 digits, exponents to 400, typed) and '
+        'duration (every unit, 64-bit boundaries, up to 16 fraction digits, underscores) spaces, judged by the same exact oracles')
 
 I64 = 2 ** 63
 
@@ -122,6 +124,54 @@ def dur_cases():
     return cases
 
 
+def random_cases(rng, n):
+    """thorough tier: literals drawn at random from the same spaces, judged by the same exact oracles"""
+    cases = []
+    def with_underscores(digs):
+        out = [digs[0]]
+        for ch in digs[1:]:
+            if rng.random() < 0.15: out.append('_')
+            out.append(ch)
+        return ''.join(out)
+    for _ in range(n):
+        k = rng.random()
+        if k < 0.4:
+            bits = rng.choice([4, 8, 16, 31, 32, 33, 63, 64, 65, 100, 127, 128, 129, 140])
+            v = rng.getrandbits(bits) | (1 << (bits - 1)) if rng.random() < 0.7 else rng.getrandbits(bits)
+            base, pre, fmt = rng.choice([(10, '', '{}'), (16, '16#', '{:X}'), (8, '8#', '{:o}'), (2, '2#', '{:b}')])
+            digs = with_underscores(fmt.format(v))
+            if base == 16 and rng.random() < 0.3: digs = digs.lower()
+            sign = rng.choice(['', '', '+', '-']) if base == 10 else ''
+            if v >= 2**128: exp = 'ERR P0002'
+            else: exp = f'int {"-" if sign == "-" else "+"} {v} -'
+            cases.append(('INT', pre + sign + digs if base != 10 else sign + digs, exp, f'rnd-int-base{base}'))
+        elif k < 0.75:
+            whole = str(rng.randrange(0, 10 ** rng.randrange(1, 18)))
+            frac = ''.join(rng.choice('0123456789') for _ in range(rng.randrange(1, 20)))
+            txt = with_underscores(whole) + '.' + with_underscores(frac)
+            if rng.random() < 0.6:
+                txt += rng.choice(['E', 'e']) + rng.choice(['', '+', '-']) + str(rng.choice([rng.randrange(0, 30), rng.randrange(280, 345), rng.randrange(0, 400)]))
+            sign = rng.choice(['', '', '-', '+'])
+            ty = rng.choice([None, None, 'REAL', 'LREAL'])
+            clean = ('-' if sign == '-' else '') + txt.replace('_', '')
+            try:
+                f = float(clean)
+                if f in (float('inf'), float('-inf')): raise OverflowError
+                exp = f'real {struct.pack(">d", f).hex()} {ty or "-"}'
+            except (ValueError, OverflowError):
+                exp = 'ERR P0002'
+            cases.append(('REAL', (f'{ty}#' if ty else '') + sign + txt, exp, 'rnd-real'))
+        else:
+            unit = rng.choice(list(UNITS))
+            whole = str(rng.choice([rng.randrange(0, 1000), rng.randrange(0, 10**9), rng.randrange(2**63 - 5, 2**63 + 5), rng.randrange(2**64 - 3, 2**64 + 3)]))
+            amt = with_underscores(whole)
+            if rng.random() < 0.6:
+                amt += '.' + with_underscores(''.join(rng.choice('0123456789') for _ in range(rng.randrange(1, 17))))
+            neg = rng.random() < 0.25
+            cases.append(('TIME', f'T#{"-" if neg else ""}{amt}{unit}', dur_expected(amt, unit, neg), f'rnd-dur-{unit}'))
+    return cases
+
+
 def tod_expected(h, m, s_txt):
     s_txt = s_txt.replace('_', '')
     s = Fraction(s_txt)
@@ -229,7 +279,8 @@ KNOWN = [
 def run(ctx):
     core.prepare(ctx)
     cases = []
-    for (ty, lit, exp, kind) in int_cases() + real_cases() + dur_cases() + tod_cases() + date_cases() + str_cases():
+    extra_cases = [] if ctx.quick() else random_cases(random.Random(ctx.seed), 200000)
+    for (ty, lit, exp, kind) in int_cases() + real_cases() + dur_cases() + tod_cases() + date_cases() + str_cases() + extra_cases:
         cases.append({'text': prog(ty, lit), 'lit': lit, 'expected': exp, 'kind': kind, 'is_addr': False})
     for (txt, exp, kind) in addr_cases():
         # `%I*` needs the incompletely-located form and is observed through the tree only
